@@ -86,6 +86,8 @@ class AttributeCollection(MutableMapping[int, Attribute]):
     cached: ClassVar[AttributeCollection | None] = None
     # previously parsed attribute, from which cached was made of
     previous: ClassVar[Buffer] = b''
+    # the (asn4, aigp) of the session previous was decoded for
+    previous_context: ClassVar[tuple[bool, bool] | None] = None
 
     representation: ClassVar[dict[int, tuple[str, str, str | tuple[str, ...], str, str]]] = {
         # key:  (how, default, name, text_presentation, json_presentation),
@@ -355,7 +357,11 @@ class AttributeCollection(MutableMapping[int, Attribute]):
 
     @classmethod
     def unpack(cls, data: Buffer, negotiated: Negotiated) -> AttributeCollection:
-        if cls.cached and data == cls.previous:
+        # what the same octets mean depends on the session: AS numbers are read on 2 or 4 octets and AIGP
+        # is only kept when enabled.  The cache compared the octets alone, so an attribute set decoded on an
+        # ASN4 session was handed unchanged to a 2 octet AS session which received the same bytes next.
+        context = (bool(negotiated.asn4), bool(negotiated.aigp))
+        if cls.cached and data == cls.previous and context == cls.previous_context:
             return cls.cached
 
         attributes = cls().parse(data, negotiated)
@@ -373,9 +379,11 @@ class AttributeCollection(MutableMapping[int, Attribute]):
 
         if Attribute.CODE.MP_REACH_NLRI not in attributes and Attribute.CODE.MP_UNREACH_NLRI not in attributes:
             cls.previous = data
+            cls.previous_context = context
             cls.cached = attributes
         else:
             cls.previous = b''
+            cls.previous_context = None
             cls.cached = None
 
         return attributes
